@@ -125,13 +125,13 @@ def registered_suffix(pid):
         if e.get("python"):
             if e["python"] not in funcs:
                 funcs.append(e["python"])
-        elif e["module"].endswith("Props.Update"):
+        elif e["module"].endswith(("Props.Update", "Props.UpdateV1")):
             upd.append(e["theorem"])
     text, tech = "", ""
     if upd:
-        text += (" COMPOSED MODEL of the whole `bumpver update` command (Model/Update.lean: version decision, dirty check, rewrite phase and VCS plan composed as cli.update "
+        text += (" COMPOSED MODEL of the whole `bumpver update` command (Model/Update.lean, and Model/UpdateV1.lean for legacy {…} patterns: version decision, dirty check, rewrite phase and VCS plan composed as cli.update "
                  "composes them; outcome = files afterwards, ordered event trace, exit code): theorems %s hold for ALL inputs and are obligations of this check; tied to the real CLI by op "
-                 "update_full (generated projects with real files x flag/config lattice x tag and status listings x faults x failure positions, compared on exit code, event trace and "
+                 "update_full / update_full_v1 (generated projects with real files x flag/config lattice x tag and status listings x faults x failure positions, compared on exit code, event trace and "
                  "the content of every configured file)." % ", ".join(upd))
         tech += " + end-to-end theorems on the composed update model with CLI-level correspondence"
     if funcs:
